@@ -26,8 +26,13 @@ def build(profile="functional"):
 // stand-in for the watto dependency (unverified; only its signature is used, behind read_string's assumed contract)
 pub struct StringTable;
 impl StringTable {
+    // ASSUMED (dependency): a total function of (bytes, offset) that fails past the end; `tbl` names it for offsets that fit in u32
     #[verifier::external_body]
-    pub fn read<'a>(bytes: &'a [u8], offset: usize) -> Result<&'a str, ReadStringError> { unimplemented!() }
+    pub fn read<'a>(bytes: &'a [u8], offset: usize) -> (r: Result<&'a str, ReadStringError>)
+        ensures
+            offset <= u32::MAX ==> (match r { Ok(s) => tbl(bytes@, offset as u32) == Some(s@), Err(_) => tbl(bytes@, offset as u32) is None }),
+            offset >= bytes@.len() ==> r is Err,
+    { unimplemented!() }
 }
 pub mod raw {
 use super::*;
@@ -36,7 +41,7 @@ use super::*;
     extract_struct(u, raw, "Class")
     extract_struct(u, raw, "Member")
     pc = extract_struct(u, raw, "ProguardCache")
-    # read_string: body is one call into the watto dependency -> assumed contract (trusted)
+    # read_string: one call into the watto dependency; the body is verified against the stand-in's assumed contract (which offset is passed on)
     rs = raw.impl_fn(r"impl<'data> ProguardCache<'data>", "read_string")
     rs.replace("watto::ReadStringError", "ReadStringError", "R4", why="dependency error type replaced by an opaque unit struct")
     rs.replace("pub(crate) fn", "pub fn", "R4")
@@ -44,8 +49,10 @@ use super::*;
     rs.contract("""    ensures
         match r { Ok(s) => tbl(self.string_bytes@, offset) == Some(s@), Err(_) => tbl(self.string_bytes@, offset) is None },
         (offset as int >= self.string_bytes@.len()) ==> r is Err,""")
-    rs.contracted = False  # external_body: nothing is verified about it
-    u.raw("impl<'data> ProguardCache<'data> {\n#[verifier::external_body]\n", "glue")
+    rs.contracted = True
+    rs.props_all = ["C01", "C02", "C03", "C04"]
+    rs.props_safety = ["C12"]
+    u.raw("impl<'data> ProguardCache<'data> {\n", "glue")
     u.emit(rs)
     u.raw("}\n} // mod raw\nuse raw::ProguardCache;\n", "glue")
 
